@@ -972,7 +972,8 @@ func rangeIndex(v ssa.Value) bool {
 // foldNonNeg decides comparisons of a range index against 0 / -1.
 func foldNonNeg(t *ssa.BinOp, edge func(ssa.Value) ssa.Value) string {
 	x, y, op := edge(t.X), edge(t.Y), t.Op
-	if rangeIndex(y) {
+	isIdx := func(v ssa.Value) bool { return rangeIndex(v) || (!isConstVal(v) && nonNegative(v, 0)) }
+	if isIdx(y) {
 		// mirror: c op idx  ==  idx op' c
 		x, y = y, x
 		switch op {
@@ -986,7 +987,7 @@ func foldNonNeg(t *ssa.BinOp, edge func(ssa.Value) ssa.Value) string {
 			op = token.LEQ
 		}
 	}
-	if !rangeIndex(x) {
+	if !isIdx(x) {
 		return ""
 	}
 	c, ok := y.(*ssa.Const)
@@ -1711,3 +1712,5 @@ func (p *Program) OwnerFns(fn *ssa.Function) []*ssa.Function {
 	sort.Slice(out, func(i, j int) bool { return funcName(out[i]) < funcName(out[j]) })
 	return out
 }
+
+func isConstVal(v ssa.Value) bool { _, ok := v.(*ssa.Const); return ok }
